@@ -163,7 +163,7 @@ Qed.
 Lemma lget_lset l i p j : lget (lset l i p) j = if Nat.eqb j i then Some p else lget l j.
 Proof. unfold lset. simpl. rewrite lget_ldel. destruct (Nat.eqb j i); reflexivity. Qed.
 
-(* ================================================== repaired protocol === *)
+(* ====== the code as it is (/repo with da46472, 19ec63c, 160dd4a, b23f2f7; kinds K..Fixed) ====== *)
 
 Definition fixed_pc (c : pc) : bool :=
   match c with
@@ -349,7 +349,7 @@ Qed.
 
 Lemma fixed_inv_step c w e : fixed_inv c w -> fixed_inv c (step c w e).
 Proof.
-  intros (Hc & HA & HJ). split; [exact Hc|]. destruct e as [p|p|d]; simpl.
+  intros (Hc & HA & HJ). split; [exact Hc|]. destruct e as [p|p|d|d]; simpl.
   - destruct (nth_error (procs w) p) as [r|] eqn:E; [|split; auto].
     destruct (pstep c p (sh w) r) as [s' r'] eqn:Ep.
     destruct (pstep_fixed _ _ _ _ _ _ Hc HA (HJ _ _ E) Ep) as [HA' HJ'].
@@ -368,6 +368,7 @@ Proof.
       apply Jfix_dead. auto.
     + apply Nat.eqb_neq in Epq. assert (Hne : q <> p) by congruence.
       eapply Jfix_stable; [exact Hne | apply frame_same; apply files_release | apply HJ; exact Hq].
+  - split; simpl; auto.
   - split; simpl; auto.
 Qed.
 
@@ -486,7 +487,7 @@ Lemma lock_inv_step c w e :
   unlink_on_release c = false -> per_process_locks c = false ->
   fixed_inv c w -> lock_inv w -> lock_inv (step c w e).
 Proof.
-  intros Hu Hpp (_ & _ & HJ) HL. destruct e as [p|p|d]; simpl; auto.
+  intros Hu Hpp (_ & _ & HJ) HL. destruct e as [p|p|d|d]; simpl; auto.
   - destruct (nth_error (procs w) p) as [r|] eqn:E; auto.
     destruct (pstep c p (sh w) r) as [s' r'] eqn:Ep.
     destruct (pstep_lock _ _ _ _ _ _ Hu Hpp (proj1 (HJ _ _ E)) (HL _ _ E) Ep) as [HL' Hfr].
@@ -608,7 +609,7 @@ Definition lf_inv (c : cfg) (w : world) : Prop :=
 
 Lemma lf_inv_step c w e : fixed_inv c w -> lf_inv c w -> lf_inv c (step c w e).
 Proof.
-  intros (Hc & HA & HJ) HL. destruct e as [p|p|d]; simpl; auto.
+  intros (Hc & HA & HJ) HL. destruct e as [p|p|d|d]; simpl; auto.
   - destruct (nth_error (procs w) p) as [r|] eqn:E; auto.
     destruct (pstep c p (sh w) r) as [s' r'] eqn:Ep.
     intros q rq v Hq Hk Hv. simpl in Hq. rewrite nth_error_upd in Hq.
@@ -667,7 +668,7 @@ Proof.
   rewrite nth_error_upd, Nat.eqb_refl, H. reflexivity.
 Qed.
 
-(* repaired protocol: the last attempt on a lock file whose lock another process holds gives up
+(* the code as it is: the last attempt on a lock file whose lock another process holds gives up
    with the cache error, takes nothing, changes no file and closes its descriptor *)
 Lemma fixed_timeout_gives_cache_error c w p r q :
   per_process_locks c = false ->
@@ -704,11 +705,11 @@ Proof.
     rewrite lget_lset, Nat.eqb_refl; reflexivity.
 Qed.
 
-(* code as it is AND repaired: cache_xml_versions entered within the refresh interval of the time
+(* the code as it is, and already before the fixes: cache_xml_versions entered within the refresh interval of the time
    recorded in the SHARED last_update.txt does nothing -- no file, stamp or lock change, no network
    request -- and reports the cache error (-1) *)
 Lemma refresh_within_interval_skipped c w p r t :
-  memo_stamp c = false ->
+  memo_stamp c = false -> ignore_future_stamp c = false ->
   nth_error (procs w) p = Some r ->
   (pc_of r = LFallback \/ pc_of r = XEnter) ->
   stamp (sh w) = StampAt t -> clock (sh w) - t < threshold c ->
@@ -718,10 +719,10 @@ Lemma refresh_within_interval_skipped c w p r t :
                         | LFallback, KLoad _ => LRecheck
                         | _, _ => Done OSkipped end.
 Proof.
-  intros Hm Hr Hpc Hst Hin. apply Nat.ltb_lt in Hin.
+  intros Hm Hif Hr Hpc Hst Hin. apply Nat.ltb_lt in Hin.
   exists (snd (pstep c p (sh w) r)). split; [apply proc_at_step_run; exact Hr|].
   rewrite (step_run_at _ _ _ _ Hr). cbn [sh].
-  unfold pstep, within_for, remember, within. rewrite Hm.
+  unfold pstep, within_for, remember, within. rewrite Hm, Hif. cbn [andb].
   destruct Hpc as [-> | ->]; rewrite Hst, Hin; cbn [fst snd]; simp_sh;
   repeat split; auto; destruct (kind_of r); reflexivity.
 Qed.
@@ -732,7 +733,7 @@ Lemma proc_done_stable c evs : forall w p r,
   nth_error (procs (run c w evs)) p = Some r.
 Proof.
   induction evs as [|e evs IH]; intros w p r Hr Hd; simpl; auto.
-  apply IH; auto. destruct e as [q|q|d]; simpl; auto.
+  apply IH; auto. destruct e as [q|q|d|d]; simpl; auto.
   - destruct (nth_error (procs w) q) as [rq|] eqn:Eq; auto.
     destruct (pstep c q (sh w) rq) as [s' r'] eqn:Ep. simpl. rewrite nth_error_upd.
     destruct (Nat.eqb q p) eqn:E; auto. apply Nat.eqb_eq in E. subst q.
@@ -747,7 +748,7 @@ Qed.
 (* ... over multi-process schedules: whatever any process does afterwards, a refresh that was
    entered within the interval of the shared stamp has ended as "skipped" and has made no request *)
 Lemma refresh_skipped_all_schedules c w p r t evs :
-  memo_stamp c = false ->
+  memo_stamp c = false -> ignore_future_stamp c = false ->
   nth_error (procs w) p = Some r ->
   (pc_of r = XEnter \/ (pc_of r = LFallback /\ kind_of r = KRefresh)) ->
   stamp (sh w) = StampAt t -> clock (sh w) - t < threshold c ->
@@ -755,8 +756,8 @@ Lemma refresh_skipped_all_schedules c w p r t evs :
   exists r', nth_error (procs (run c w (Run p :: evs))) p = Some r' /\
              pc_of r' = Done OSkipped /\ cache_err r' = true /\ nreq r' = nreq r.
 Proof.
-  intros Hm Hr Hpc Hst Hin.
-  destruct (refresh_within_interval_skipped c w p r t Hm Hr) as (r' & Hat & Hsh & He & Hn & Hpc'); auto.
+  intros Hm Hif Hr Hpc Hst Hin.
+  destruct (refresh_within_interval_skipped c w p r t Hm Hif Hr) as (r' & Hat & Hsh & He & Hn & Hpc'); auto.
   { destruct Hpc as [H|[H _]]; auto. }
   split; [rewrite Hsh; reflexivity|].
   exists r'. split; [|repeat split; auto].
@@ -784,21 +785,22 @@ Qed.
 
 (* outside the interval the refresh does go to the network *)
 Lemma refresh_outside_interval_proceeds c w p r :
+  ignore_future_stamp c = false ->
   nth_error (procs w) p = Some r -> pc_of r = LFallback ->
   (stamp (sh w) = NoStamp \/ exists t, stamp (sh w) = StampAt t /\ threshold c <= clock (sh w) - t) ->
   netreqs (sh (run c w [Run p; Run p])) = S (netreqs (sh w)).
 Proof.
-  intros Hr Hpc Hst. unfold run. cbn [fold_left].
+  intros Hif Hr Hpc Hst. unfold run. cbn [fold_left].
   rewrite (step_run_at _ _ _ _ Hr).
   assert (E : pstep c p (sh w) r = (sh w, set_ts (goto r RBody) (clock (sh w)))).
-  { unfold pstep, within. rewrite Hpc. destruct Hst as [-> | (t & -> & Ht)]; auto.
+  { unfold pstep, within. rewrite Hpc, Hif. cbn [andb]. destruct Hst as [-> | (t & -> & Ht)]; auto.
     apply Nat.ltb_ge in Ht. rewrite Ht. reflexivity. }
   rewrite E. cbn [fst snd].
   erewrite step_run_at; [| simpl; rewrite nth_error_upd, Nat.eqb_refl, Hr; reflexivity].
   reflexivity.
 Qed.
 
-(* ====================================================== code as it is === *)
+(* ===== behaviour BEFORE the fix commits (kinds KLoad/KRefresh): record of the repaired defects ===== *)
 
 Definition cur_pc (x : pc) : bool :=
   match x with
@@ -966,14 +968,19 @@ Proof.
   intros [HC HJ]. split; simpl; auto.
 Qed.
 
+Lemma cur_inv_back c w d : cur_inv c w -> cur_inv c (step c w (Back d)).
+Proof.
+  intros [HC HJ]. split; simpl; auto.
+Qed.
+
 Lemma cur_inv_run c evs : forall w, no_crash evs -> cur_inv c w -> cur_inv c (run c w evs).
 Proof.
   induction evs as [|e evs IH]; intros w Hn H; simpl; auto.
   inversion Hn; subst. apply IH; auto.
-  destruct e as [p|p|d]; [apply cur_inv_run1|contradiction|apply cur_inv_tick]; auto.
+  destruct e as [p|p|d|d]; [apply cur_inv_run1|contradiction|apply cur_inv_tick|apply cur_inv_back]; auto.
 Qed.
 
-Lemma cur_inv_init c t ks : forallb is_cur_kind ks = true -> cur_inv c (init t ks).
+Lemma cur_inv_init c t ks : forallb is_prefix_kind ks = true -> cur_inv c (init t ks).
 Proof.
   intro Hk. split; simpl.
   - intros f x H. discriminate.
@@ -983,11 +990,11 @@ Proof.
       (split; [reflexivity|split; [intros ? ? ?; discriminate|split; [exact I|intro; discriminate]]]).
 Qed.
 
-(* Code as it is, no process killed: once every process has finished, every
+(* Before 19ec63c (in-place copies), no process killed: once every process has finished, every
    cached schema file is byte-identical to the installed one, and if some
    process went through population all bundled files are there. *)
 Lemma finished_population_identical c t ks evs :
-  forallb is_cur_kind ks = true -> no_crash evs ->
+  forallb is_prefix_kind ks = true -> no_crash evs ->
   all_done (run c (init t ks) evs) ->
   (forall f x, ver (run c (init t ks) evs) f = Some x -> x = good (nchunks c)) /\
   (forall p r, nth_error (procs (run c (init t ks) evs)) p = Some r -> populated r = true ->
@@ -1049,7 +1056,7 @@ Proof.
                    forall evs', forall q rq, nth_error (procs (run c w evs')) q = Some rq ->
                                              is_fixed_kind (kind_of rq) = true).
     { intros w Hw evs'. revert w Hw. induction evs' as [|e evs' IH]; intros w Hw; simpl; auto.
-      apply IH. intros q rq Hq. destruct e as [p0|p0|d]; simpl in Hq.
+      apply IH. intros q rq Hq. destruct e as [p0|p0|d|d]; simpl in Hq.
       - destruct (nth_error (procs w) p0) as [r0|] eqn:E0; [|eauto].
         destruct (pstep c p0 (sh w) r0) as [s' r'] eqn:Ep. simpl in Hq.
         rewrite nth_error_upd in Hq. destruct (Nat.eqb p0 q) eqn:Epq; [|eauto].
@@ -1060,6 +1067,7 @@ Proof.
         destruct (is_done (pc_of r0)); [eauto|]. simpl in Hq.
         rewrite nth_error_upd in Hq. destruct (Nat.eqb p0 q) eqn:Epq; [|eauto].
         rewrite E0 in Hq. inversion Hq. simpl. eauto.
+      - eauto.
       - eauto. }
     assert (Hf : is_fixed_kind (kind_of r) = true).
     { eapply (Hall (init t ks)); [|exact Hr]. intros q rq Hq. simpl in Hq.
@@ -1071,11 +1079,11 @@ Qed.
 
 (* ================================================= refuting witnesses === *)
 
-Definition c2 : cfg := mkCfg 2 2 18 3 false false false false.   (* time unit: 100 s *)
-Definition c2u : cfg := mkCfg 2 2 18 3 true false false false.   (* the same with "remove the lock file on release" *)
+Definition c2 : cfg := mkCfg 2 2 18 3 false false false false false false.   (* time unit: 100 s *)
+Definition c2u : cfg := mkCfg 2 2 18 3 true false false false false false.   (* the same with "remove the lock file on release" *)
 Definition t0 : nat := 50.
 
-(* F2: a process is killed inside the in-place copy of file 1; the next load of version 1
+(* C19-F2, behaviour before 19ec63c: a process is killed inside the in-place copy of file 1; the next load of version 1
    finds a torn file under the final name and fails with a parse error *)
 Definition ev_torn : list event := runs 0 9 ++ [Crash 0] ++ runs 1 2.
 
@@ -1094,7 +1102,7 @@ Proof.
   split; [repeat constructor|]. vm_compute. split; reflexivity.
 Qed.
 
-(* F3: a process is killed between two copies; no file is torn, but the cache is non-empty,
+(* C19-F3, behaviour before 160dd4a: a process is killed between two copies; no file is torn, but the cache is non-empty,
    is never populated again, and the load of the missing bundled version goes to the
    network: URLError, then (inside the refresh interval) "not cached" *)
 Definition ev_partial : list event := runs 0 6 ++ [Crash 0] ++ runs 1 5 ++ runs 2 3.
@@ -1114,7 +1122,7 @@ Lemma partial_live_witness :
   no_crash ev_partial_live /\ outcome_of w 0 = Some OLoaded /\ outcome_of w 1 = Some (OFail FURLError).
 Proof. split; [repeat constructor|]. vm_compute. split; reflexivity. Qed.
 
-(* F1: both processes are inside "with CacheLock(...)" at the same time, neither got the
+(* C19-F1, behaviour before da46472: both processes are inside "with CacheLock(...)" at the same time, neither got the
    cache error *)
 Definition ev_lock : list event := runs 0 2 ++ runs 1 2.
 
@@ -1126,14 +1134,14 @@ Lemma lock_witness :
 Proof. vm_compute. eexists. eexists. repeat split; reflexivity. Qed.
 
 Lemma no_torn_visible_refuted :
-  exists c ks, forallb is_cur_kind ks = true /\ ~ no_torn_visible_stmt c ks.
+  exists c ks, forallb is_prefix_kind ks = true /\ ~ no_torn_visible_stmt c ks.
 Proof.
   exists c2, [KLoad 1; KLoad 1]. split; [reflexivity|]. intro H.
   destruct torn_witness as (Hv & Hne & _). apply Hne. eapply H. exact Hv.
 Qed.
 
 Lemma load_succeeds_after_crash_refuted :
-  exists c ks, forallb is_cur_kind ks = true /\ ~ load_succeeds_stmt c ks.
+  exists c ks, forallb is_prefix_kind ks = true /\ ~ load_succeeds_stmt c ks.
 Proof.
   exists c2, [KLoad 1; KLoad 1; KLoad 1]. split; [reflexivity|]. intro H.
   specialize (H t0 ev_partial 1).
@@ -1148,14 +1156,14 @@ Proof.
 Qed.
 
 Lemma lock_exclusive_refuted :
-  exists c ks, forallb is_cur_kind ks = true /\ ~ lock_exclusive_stmt c ks.
+  exists c ks, forallb is_prefix_kind ks = true /\ ~ lock_exclusive_stmt c ks.
 Proof.
   exists c2, [KLoad 1; KLoad 1]. split; [reflexivity|]. intro H.
   destruct lock_witness as (r0 & r1 & H0 & H1 & Hh0 & Hh1 & _).
   specialize (H t0 ev_lock 0 1 r0 r1 H0 H1 Hh0 Hh1). discriminate H.
 Qed.
 
-(* F4: nobody killed.  The time stamp is rewritten in place (open 'w', then write): a process
+(* C19-F4, behaviour before b23f2f7: nobody killed.  The time stamp is rewritten in place (open 'w', then write): a process
    that found the directory empty and is entering CacheLock reads the still-empty
    last_update.txt of a concurrent refresher -> ValueError, which neither
    _read_last_cached_time ("except FileNotFoundError or ValueError or IOError") nor
@@ -1207,7 +1215,7 @@ Qed.
    killed: both found the folder empty; P0 holds the lock and is between its temporary copy of file 0
    and the rename; P1 does its clean-up (outside the lock) and removes P0's in-flight temporary
    file; P0's os.replace raises FileNotFoundError, which escapes load_schema_version. *)
-Definition c2c : cfg := mkCfg 2 2 18 3 false true false false.
+Definition c2c : cfg := mkCfg 2 2 18 3 false true false false false false.
 Definition ev_cleanup : list event := [Run 0; Run 1] ++ runs 0 6 ++ [Run 1] ++ runs 0 2.
 
 Lemma cleanup_witness :
@@ -1241,7 +1249,7 @@ Qed.
    (calls 0 and 2 are both its calls); more than the interval later another process refreshes at
    70; one time unit later process 7 tries again: its memo still says 50, it is NOT skipped and
    goes to the network although the shared stamp is one unit old. *)
-Definition c2m : cfg := mkCfg 2 2 18 3 false false true false.
+Definition c2m : cfg := mkCfg 2 2 18 3 false false true false false false.
 Definition ev_memo : list event := runs 0 4 ++ [Tick 20] ++ runs 1 4 ++ [Tick 1] ++ runs 2 3.
 Definition ks_memo : list kind := [KRefreshOf 7; KRefreshFixed; KRefreshOf 7].
 
@@ -1251,7 +1259,7 @@ Lemma memo_witness :
   exists r, nth_error (procs w) 2 = Some r /\ nreq r = 1 /\ cache_err r = false.
 Proof. vm_compute. repeat split; try reflexivity. eexists. repeat split; reflexivity. Qed.
 
-(* the code as it is / repaired (no memo): same schedule, the third call is skipped, no request *)
+(* the code as it is (no memo; the same before the fixes): same schedule, the third call is skipped, no request *)
 Lemma memo_contrast :
   let w := run c2 (init t0 ks_memo) ev_memo in
   stamp (sh w) = StampAt 70 /\ netreqs (sh w) = 2 /\ outcome_of w 2 = Some OSkipped /\
@@ -1263,7 +1271,7 @@ Proof. vm_compute. repeat split; try reflexivity. eexists. repeat split; reflexi
    contender 1 is another process.  Nobody is killed.  A (0) holds; Q (1) has passed the threshold
    test; B (2), in A's process, "acquires" at once: A and B are inside together.  B leaves: its
    close drops the lock of the whole process; Q's first attempt succeeds while A is still inside. *)
-Definition c2p : cfg := mkCfg 2 2 18 3 false false false true.
+Definition c2p : cfg := mkCfg 2 2 18 3 false false false true false false.
 Definition ks_same : list kind := [KRefreshOf 7; KRefreshFixed; KRefreshOf 7].
 Definition ev_same_1 : list event := runs 0 2 ++ [Run 1] ++ runs 2 2.
 Definition ev_same_2 : list event := ev_same_1 ++ runs 2 2 ++ [Run 1].
@@ -1313,7 +1321,7 @@ Proof.
   split; [repeat constructor|]. vm_compute. repeat split; try reflexivity; repeat constructor.
 Qed.
 
-(* repaired protocol: a populator is killed while holding the lock in the middle of a copy,
+(* the code as it is: a populator is killed while holding the lock in the middle of a copy,
    a second populator and a loader interleave; a refresher competes for the lock *)
 Definition ev_fixed : list event :=
   [Run 0; Run 1; Run 2] ++ runs 0 5 ++ [Run 1; Run 1; Run 2; Run 3; Run 3; Crash 0] ++
@@ -1409,7 +1417,7 @@ Proof.
       [eapply HL; eauto | exact Hd | lia].
   - inversion Hn as [|? ? He Hn']; subst.
     pose proof (fixed_inv_step c w e HI) as HI'. pose proof (lf_inv_step c w e HI HL) as HL'.
-    simpl. destruct e as [q|q|d].
+    simpl. destruct e as [q|q|d|d].
     + destruct (Nat.eq_dec p q) as [<-|Hne].
       * pose proof (proc_at_step_run c w p r Hr) as Hat. unfold proc_at in Hat.
         pose proof (pstep_kind c p (sh w) r) as Hkk.
@@ -1437,9 +1445,10 @@ Proof.
       destruct (is_done (pc_of rq)); auto. simpl. rewrite nth_error_upd.
       apply Nat.eqb_neq in Hne. rewrite Hne. exact Hr.
     + eapply (IH _ r v HI' HL'); auto.
+    + eapply (IH _ r v HI' HL'); auto.
 Qed.
 
-(* Repaired protocol, any number of processes of the repaired kinds, any
+(* The code as it is, any number of processes of the K..Fixed kinds, any
    schedule with any kills of OTHER processes: a loader of a bundled version
    that is scheduled at least [load_bound c] times has returned the bundled
    schema. *)
@@ -1457,3 +1466,301 @@ Proof.
   - simpl. discriminate.
   - unfold outcome_of. rewrite Hr', Hpc. reflexivity.
 Qed.
+
+(* ===== the directory may be in any state when the processes start (audit item: not only empty) ===== *)
+
+(* the only requirement on the directory found: every file under a version-pattern name is a
+   complete copy.  Everything else is arbitrary: leftover temporary files, last_update.txt in any
+   state (torn included), a lock file, advisory locks held by processes outside ks, the clock. *)
+Definition dir_ok (c : cfg) (s0 : shared) : Prop := vers_good c (files_of s0).
+
+Lemma dir_ok_empty c t : dir_ok c (sh0 t).
+Proof. intros f x H. discriminate. Qed.
+
+Lemma fixed_inv_init_from c s0 ks :
+  cleanup_outside_lock c = false -> dir_ok c s0 -> forallb is_fixed_kind ks = true ->
+  fixed_inv c (init_from s0 ks).
+Proof.
+  intros Hc Hd Hk. split; [exact Hc|]. split; [exact Hd|]. simpl.
+  intros p r Hr. apply nth_error_map_start in Hr. destruct Hr as (k & -> & Hin).
+  rewrite forallb_forall in Hk. specialize (Hk _ Hin).
+  destruct k; try discriminate Hk; unfold Jfix; simpl; repeat split; auto; intro; discriminate.
+Qed.
+
+Lemma lock_inv_init_from s0 ks : lock_inv (init_from s0 ks).
+Proof.
+  intros p r Hr. simpl in Hr. apply nth_error_map_start in Hr. destruct Hr as (k & -> & _).
+  split; simpl.
+  - destruct k; simpl; intro; discriminate.
+  - intros i Hi. discriminate.
+Qed.
+
+Lemma lf_inv_init_from c s0 ks : lf_inv c (init_from s0 ks).
+Proof.
+  intros p r v Hr Hk Hv. simpl in Hr. apply nth_error_map_start in Hr.
+  destruct Hr as (k & -> & _). simpl in Hk. subst k. reflexivity.
+Qed.
+
+Definition no_torn_visible_from (c : cfg) (ks : list kind) : Prop :=
+  forall s0 evs f x, dir_ok c s0 ->
+    ver (run c (init_from s0 ks) evs) f = Some x -> x = good (nchunks c).
+
+Definition load_succeeds_from (c : cfg) (ks : list kind) : Prop :=
+  forall s0 evs p r v o, dir_ok c s0 ->
+    nth_error (procs (run c (init_from s0 ks) evs)) p = Some r ->
+    kind_of r = KLoadFixed v -> v < nfiles c -> pc_of r = Done o -> o = OLoaded.
+
+Definition lock_exclusive_from (c : cfg) (ks : list kind) : Prop :=
+  forall s0 evs p q rp rq, dir_ok c s0 ->
+    nth_error (procs (run c (init_from s0 ks) evs)) p = Some rp ->
+    nth_error (procs (run c (init_from s0 ks) evs)) q = Some rq ->
+    holding (pc_of rp) = true -> holding (pc_of rq) = true -> p = q.
+
+Lemma no_torn_visible_any_directory c ks :
+  cleanup_outside_lock c = false -> forallb is_fixed_kind ks = true -> no_torn_visible_from c ks.
+Proof.
+  intros Hc Hk s0 evs f x Hd H.
+  destruct (fixed_inv_run c evs _ (fixed_inv_init_from c s0 ks Hc Hd Hk)) as (_ & HA & _).
+  eapply HA. exact H.
+Qed.
+
+Lemma load_succeeds_any_directory c ks :
+  cleanup_outside_lock c = false -> forallb is_fixed_kind ks = true -> load_succeeds_from c ks.
+Proof.
+  intros Hc Hk s0 evs p r v o Hd Hr Hkind Hv Hpc.
+  destruct (fixed_both_run c evs _ (fixed_inv_init_from c s0 ks Hc Hd Hk) (lf_inv_init_from c s0 ks))
+    as [_ HL].
+  specialize (HL _ _ _ Hr Hkind Hv). rewrite Hpc in HL. destruct o; try discriminate HL. reflexivity.
+Qed.
+
+Lemma lock_exclusive_any_directory c ks :
+  unlink_on_release c = false -> per_process_locks c = false -> cleanup_outside_lock c = false ->
+  forallb is_fixed_kind ks = true -> lock_exclusive_from c ks.
+Proof.
+  intros Hu Hpp Hc Hk s0 evs p q rp rq Hd Hp Hq Hhp Hhq.
+  pose proof (lock_inv_run c evs _ Hu Hpp (fixed_inv_init_from c s0 ks Hc Hd Hk)
+                (lock_inv_init_from s0 ks)) as HL.
+  destruct (HL _ _ Hp) as [A B]. destruct (HL _ _ Hq) as [A' B'].
+  destruct (A Hhp) as (i & Hfd & Hl). destruct (A' Hhq) as (j & Hfd' & Hl').
+  pose proof (B _ Hfd) as H1. pose proof (B' _ Hfd') as H2. congruence.
+Qed.
+
+Lemma finished_population_any_directory c s0 ks evs p r f :
+  cleanup_outside_lock c = false -> forallb is_fixed_kind ks = true -> dir_ok c s0 ->
+  nth_error (procs (run c (init_from s0 ks) evs)) p = Some r -> populated r = true ->
+  f < nfiles c -> ver (run c (init_from s0 ks) evs) f = Some (good (nchunks c)).
+Proof.
+  intros Hc Hk Hd Hp Hpop Hf.
+  destruct (fixed_inv_run c evs _ (fixed_inv_init_from c s0 ks Hc Hd Hk)) as (_ & HA & HJ).
+  destruct (HJ _ _ Hp) as (_ & J3 & _). specialize (J3 Hpop f Hf).
+  unfold ver. unfold has in J3. destruct (fget _ (Ver f)) as [x|] eqn:E; [|discriminate].
+  f_equal. eapply HA. exact E.
+Qed.
+
+Lemma load_terminates_any_directory c s0 ks evs p v :
+  cleanup_outside_lock c = false -> forallb is_fixed_kind ks = true -> dir_ok c s0 ->
+  nth_error ks p = Some (KLoadFixed v) -> v < nfiles c ->
+  never_killed p evs -> load_bound c <= count_run p evs ->
+  outcome_of (run c (init_from s0 ks) evs) p = Some OLoaded.
+Proof.
+  intros Hc Hk Hd Hp Hv Hn Hb.
+  destruct (fixed_load_terminates_gen c p evs (init_from s0 ks) (start (KLoadFixed v)) v)
+    as (r' & Hr' & Hpc); auto.
+  - apply fixed_inv_init_from; assumption.
+  - apply lf_inv_init_from.
+  - simpl. rewrite nth_error_map, Hp. reflexivity.
+  - simpl. discriminate.
+  - unfold outcome_of. rewrite Hr', Hpc. reflexivity.
+Qed.
+
+(* non-vacuity and sharpness of dir_ok.  A directory with leftovers of every kind: a temporary
+   file of a dead process, a torn time stamp, a lock file whose lock a process outside ks still
+   holds -- the loader gives up on the lock and still returns the bundled schema. *)
+Definition s_left : shared :=
+  mkSh [(Ver 0, [Good; Good]); (Tmp 9 1, [Good])] StampTorn (Some 0) [(0, 9)] 1 t0 0 [].
+
+Lemma leftovers_example :
+  dir_ok c2 s_left /\
+  (let w := run c2 (init_from s_left [KLoadFixed 1; KRefreshFixed]) (runs 0 3 ++ runs 1 6) in
+   outcome_of w 0 = Some OLoaded /\ outcome_of w 1 = Some OSkipped /\ ver w 0 = Some (good 2)).
+Proof.
+  split.
+  - intros f x. unfold s_left. simpl. destruct (Nat.eqb f 0); intro H; inversion H. reflexivity.
+  - vm_compute. repeat split; reflexivity.
+Qed.
+
+(* The precondition cannot be dropped: a file under a FINAL name that is already torn when the
+   processes start -- which no process of the current code can produce (no_torn_visible), only a
+   version before commit 19ec63c, or a person -- is neither healed nor avoided: the load of that
+   version ends with the parse error and the file stays as it is. *)
+Definition s_torn : shared := mkSh [(Ver 1, [Good])] NoStamp None [] 0 t0 0 [].
+
+Lemma preexisting_torn_file_witness :
+  ~ dir_ok c2 s_torn /\
+  (let w := run c2 (init_from s_torn [KLoadFixed 1]) (runs 0 2) in
+   outcome_of w 0 = Some (OFail FParse) /\ ver w 1 = Some [Good]).
+Proof.
+  split.
+  - intro H. specialize (H 1 [Good] eq_refl). discriminate H.
+  - vm_compute. split; reflexivity.
+Qed.
+
+(* ===== proposed repair fix-F5 (parse_fallback): no requirement on the directory at all ===== *)
+
+(* the per-process part of the invariant does not depend on the final-name files being complete *)
+Lemma pstep_J c p s r s' r' :
+  cleanup_outside_lock c = false -> Jfix c p s r -> pstep c p s r = (s', r') -> Jfix c p s' r'.
+Proof.
+  intros Hc (J1 & J3 & J4 & J5) H. unfold pstep, after_chunk, lookup_fixed, acquire_step, opened, remember, within_for, memo_written in H.
+  rewrite Hc in H.
+  destruct (pc_of r) eqn:Epc; try discriminate J1; cbn [holding tmp_ok pop_ok] in J4, J5;
+    try match type of J4 with _ /\ _ => destruct J4 as [J4 J4'] end;
+    unfold cur_content in H; try rewrite J4 in H;
+    case_step H; unfold Jfix; simp_sh; rewrite ?files_leave, ?Epc;
+    cbn [fixed_pc holding tmp_ok pop_ok]; rewrite ?fget_tmp_same, ?write_good.
+  all: try match goal with |- _ /\ _ => split; [reflexivity|split; [|split]] end.
+  all: auto using below_tmp, below_replace, below_replace_S, below_0.
+  all: try (intros; discriminate).
+  all: try (rewrite good_0 by assumption; reflexivity).
+  all: try (split; [reflexivity|]).
+  all: try match goal with
+           | H : Nat.eqb _ 0 = false |- 0 < _ => apply Nat.eqb_neq in H; lia
+           | H : Nat.ltb _ _ = true |- _ < _ => apply Nat.ltb_lt; exact H
+           | H : Nat.ltb (S ?i) ?n = false, H' : ?i < ?n |- Some _ = Some (good _) =>
+               apply Nat.ltb_ge in H; unfold good; do 2 f_equal; lia
+           | H : Nat.leb _ _ = true, J : below _ _ |- below _ _ =>
+               eapply below_mono; [exact J | apply Nat.leb_le; exact H]
+           | |- below _ (S _) => apply below_S; assumption
+           end.
+Qed.
+
+Definition J_inv (c : cfg) (w : world) : Prop :=
+  forall p r, nth_error (procs w) p = Some r -> Jfix c p (sh w) r.
+
+Lemma J_inv_step c w e : cleanup_outside_lock c = false -> J_inv c w -> J_inv c (step c w e).
+Proof.
+  intros Hc HJ. destruct e as [p|p|d|d]; simpl; auto.
+  - destruct (nth_error (procs w) p) as [r|] eqn:E; auto.
+    destruct (pstep c p (sh w) r) as [s' r'] eqn:Ep.
+    pose proof (pstep_J _ _ _ _ _ _ Hc (HJ _ _ E) Ep) as HJ'.
+    pose proof (pstep_frame _ _ _ _ _ _ (proj1 (HJ _ _ E)) Ep) as Hfr.
+    intros q rq Hq. simpl in *. rewrite nth_error_upd in Hq.
+    destruct (Nat.eqb p q) eqn:Epq.
+    + apply Nat.eqb_eq in Epq. subst q. rewrite E in Hq. inversion Hq. subst. exact HJ'.
+    + apply Nat.eqb_neq in Epq. assert (Hne : q <> p) by congruence.
+      eapply Jfix_stable; [exact Hne | exact Hfr | apply HJ; exact Hq].
+  - destruct (nth_error (procs w) p) as [r|] eqn:E; auto.
+    destruct (is_done (pc_of r)) eqn:Ed; auto.
+    intros q rq Hq. simpl in *. rewrite nth_error_upd in Hq.
+    destruct (Nat.eqb p q) eqn:Epq.
+    + apply Nat.eqb_eq in Epq. subst q. rewrite E in Hq. inversion Hq. subst.
+      apply Jfix_dead. auto.
+    + apply Nat.eqb_neq in Epq. assert (Hne : q <> p) by congruence.
+      eapply Jfix_stable; [exact Hne | apply frame_same; apply files_release | apply HJ; exact Hq].
+Qed.
+
+Lemma pstep_lf5 c p s r s' r' v :
+  cleanup_outside_lock c = false -> parse_fallback c = true -> Jfix c p s r ->
+  kind_of r = KLoadFixed v -> v < nfiles c ->
+  lf_pc (pc_of r) = true -> pstep c p s r = (s', r') -> lf_pc (pc_of r') = true.
+Proof.
+  intros Hc Hf5 (_ & _ & J4 & _) Hk Hv Hl H. apply Nat.ltb_lt in Hv.
+  unfold pstep, after_chunk, lookup_fixed, acquire_step, remember, within_for, memo_written in H.
+  rewrite Hk, Hc, Hf5 in H. cbn [target andb] in H. rewrite ?Hv in H.
+  destruct (pc_of r) eqn:Epc; try discriminate Hl; cbn [tmp_ok] in J4.
+  all: try (case_step H; simp_sh; rewrite ?Epc; reflexivity).
+  - rewrite J4 in H. inversion H. reflexivity.
+  - destruct o; try discriminate Hl. inversion H. subst. rewrite Epc. reflexivity.
+Qed.
+
+Lemma lf5_step c w e :
+  cleanup_outside_lock c = false -> parse_fallback c = true ->
+  J_inv c w -> lf_inv c w -> lf_inv c (step c w e).
+Proof.
+  intros Hc Hf5 HJ HL. destruct e as [p|p|d|d]; simpl; auto.
+  - destruct (nth_error (procs w) p) as [r|] eqn:E; auto.
+    destruct (pstep c p (sh w) r) as [s' r'] eqn:Ep.
+    intros q rq v Hq Hk Hv. simpl in Hq. rewrite nth_error_upd in Hq.
+    destruct (Nat.eqb p q) eqn:Epq.
+    + apply Nat.eqb_eq in Epq. subst q. rewrite E in Hq. inversion Hq. subst rq.
+      pose proof (pstep_kind c p (sh w) r) as Hkk. rewrite Ep in Hkk. simpl in Hkk.
+      rewrite Hkk in Hk. eapply (pstep_lf5 c p (sh w) r s' r' v); eauto.
+    + eapply HL; eauto.
+  - destruct (nth_error (procs w) p) as [r|] eqn:E; auto.
+    destruct (is_done (pc_of r)) eqn:Ed; auto.
+    intros q rq v Hq Hk Hv. simpl in Hq. rewrite nth_error_upd in Hq.
+    destruct (Nat.eqb p q) eqn:Epq.
+    + apply Nat.eqb_eq in Epq. subst q. rewrite E in Hq. inversion Hq. reflexivity.
+    + eapply HL; eauto.
+Qed.
+
+Lemma lf5_run c evs : forall w,
+  cleanup_outside_lock c = false -> parse_fallback c = true ->
+  J_inv c w -> lf_inv c w -> lf_inv c (run c w evs).
+Proof.
+  induction evs as [|e evs IH]; intros w Hc Hf5 HJ HL; simpl; auto.
+  apply IH; auto; [apply J_inv_step | apply lf5_step]; auto.
+Qed.
+
+Lemma J_inv_init_from c s0 ks : forallb is_fixed_kind ks = true -> J_inv c (init_from s0 ks).
+Proof.
+  intros Hk p r Hr. simpl in Hr. apply nth_error_map_start in Hr. destruct Hr as (k & -> & Hin).
+  rewrite forallb_forall in Hk. specialize (Hk _ Hin).
+  destruct k; try discriminate Hk; unfold Jfix; simpl; repeat split; auto; intro; discriminate.
+Qed.
+
+(* with the proposed repair a finished load of a bundled version has returned the bundled schema
+   from EVERY directory state -- torn final-name files included *)
+Lemma f5_load_succeeds_every_directory c ks s0 evs p r v o :
+  cleanup_outside_lock c = false -> parse_fallback c = true -> forallb is_fixed_kind ks = true ->
+  nth_error (procs (run c (init_from s0 ks) evs)) p = Some r ->
+  kind_of r = KLoadFixed v -> v < nfiles c -> pc_of r = Done o -> o = OLoaded.
+Proof.
+  intros Hc Hf5 Hk Hr Hkind Hv Hpc.
+  pose proof (lf5_run c evs _ Hc Hf5 (J_inv_init_from c s0 ks Hk) (lf_inv_init_from c s0 ks)) as HL.
+  specialize (HL _ _ _ Hr Hkind Hv). rewrite Hpc in HL. destruct o; try discriminate HL. reflexivity.
+Qed.
+
+Definition c2f : cfg := mkCfg 2 2 18 3 false false false false false true.
+
+Lemma f5_torn_example :
+  let w := run c2f (init_from s_torn [KLoadFixed 1]) (runs 0 3) in
+  outcome_of w 0 = Some OLoaded /\ ver w 1 = Some [Good].
+Proof. vm_compute. split; reflexivity. Qed.
+
+(* ===== a recorded time that lies in the FUTURE of the caller's clock ===== *)
+
+(* the refresh clause spelled out for the sign edge: the time in last_update.txt is at or ahead of
+   the caller's clock (the clock was stepped back -- event [Back] -- or the stamp was written by a
+   host whose clock is ahead).  The attempt is skipped, whatever is scheduled afterwards. *)
+Lemma refresh_future_stamp_skipped c w p r t evs :
+  memo_stamp c = false -> ignore_future_stamp c = false -> 0 < threshold c ->
+  nth_error (procs w) p = Some r ->
+  (pc_of r = XEnter \/ (pc_of r = LFallback /\ kind_of r = KRefresh)) ->
+  stamp (sh w) = StampAt t -> clock (sh w) <= t ->
+  netreqs (sh (step c w (Run p))) = netreqs (sh w) /\
+  exists r', nth_error (procs (run c w (Run p :: evs))) p = Some r' /\
+             pc_of r' = Done OSkipped /\ cache_err r' = true /\ nreq r' = nreq r.
+Proof.
+  intros Hm Hif Hth Hr Hpc Hst Hle.
+  apply (refresh_skipped_all_schedules c w p r t evs Hm Hif Hr Hpc Hst). lia.
+Qed.
+
+(* ANTI-PATTERN: "a time that lies in the future cannot be the time of an update: ignore it".
+   P0 refreshes at 50; the clock is stepped back by 3; P1 attempts a refresh at 47, i.e. well inside
+   the interval: with the switch it is NOT skipped (second network request, stamp overwritten). *)
+Definition c2i : cfg := mkCfg 2 2 18 3 false false false false true false.
+Definition ev_future : list event := runs 0 4 ++ [Back 3] ++ runs 1 4.
+
+Lemma future_stamp_witness :
+  let w := run c2i (init t0 [KRefreshFixed; KRefreshFixed]) ev_future in
+  clock (sh w) = 47 /\ netreqs (sh w) = 2 /\ stamp (sh w) = StampAt 47 /\
+  exists r, nth_error (procs w) 1 = Some r /\ nreq r = 1 /\ cache_err r = false.
+Proof. vm_compute. repeat split; try reflexivity. eexists. repeat split; reflexivity. Qed.
+
+Lemma future_stamp_contrast :
+  let w := run c2 (init t0 [KRefreshFixed; KRefreshFixed]) ev_future in
+  clock (sh w) = 47 /\ netreqs (sh w) = 1 /\ stamp (sh w) = StampAt 50 /\
+  outcome_of w 1 = Some OSkipped /\
+  exists r, nth_error (procs w) 1 = Some r /\ nreq r = 0 /\ cache_err r = true.
+Proof. vm_compute. repeat split; try reflexivity. eexists. repeat split; reflexivity. Qed.
